@@ -2311,6 +2311,389 @@ fn exec_f2(cx: &mut Ctx, c: &F2) -> (i64, Vec<(i64, i64, i64)>, usize) {
     }
 }
 
+// ---- hand-assembled CFF fonts: hint map capacity sweep ----
+fn cs_num(out: &mut Vec<u8>, v: i32) {
+    match v {
+        -107..=107 => out.push((v + 139) as u8),
+        108..=1131 => {
+            let v = v - 108;
+            out.push((v >> 8) as u8 + 247);
+            out.push((v & 0xFF) as u8);
+        }
+        -1131..=-108 => {
+            let v = -v - 108;
+            out.push((v >> 8) as u8 + 251);
+            out.push((v & 0xFF) as u8);
+        }
+        _ => {
+            out.push(28);
+            out.extend_from_slice(&(v as i16).to_be_bytes());
+        }
+    }
+}
+/// variant: 0 hstem, 1 vstem, 2 hstemhm, 3 vstemhm, 4 hstemhm + hintmask(all), 5 hstemhm + cntrmask + hintmask(alternating),
+/// 6 hstem and vstem interleaved (both stem lists)
+fn cff_charstring(stems: &[(i32, i32)], variant: u8) -> Vec<u8> {
+    let mut cs = vec![];
+    let op = |variant: u8, k: usize| -> u8 {
+        match variant {
+            0 => 1,
+            1 => 3,
+            2 | 4 | 5 => 18,
+            3 => 23,
+            _ => {
+                if k % 2 == 0 {
+                    1
+                } else {
+                    3
+                }
+            }
+        }
+    };
+    let mut nstems = 0usize;
+    for (k, chunk) in stems.chunks(24).enumerate() {
+        let mut prev = 0;
+        for (min, max) in chunk {
+            cs_num(&mut cs, min - prev);
+            cs_num(&mut cs, max - min);
+            prev = *max;
+            nstems += 1;
+        }
+        cs.push(op(variant, k));
+    }
+    if variant == 4 || variant == 5 {
+        let nbytes = nstems.div_ceil(8);
+        if variant == 5 {
+            cs.push(20); // cntrmask
+            cs.extend(std::iter::repeat(0xFF).take(nbytes));
+        }
+        cs.push(19); // hintmask
+        cs.extend(std::iter::repeat(if variant == 4 { 0xFF } else { 0xAA }).take(nbytes));
+    }
+    cs_num(&mut cs, 100);
+    cs_num(&mut cs, 20);
+    cs.push(21); // rmoveto
+    for v in [50, 0, 0, 50, -50, 0] {
+        cs_num(&mut cs, v);
+    }
+    cs.push(5); // rlineto
+    if variant == 5 {
+        let nbytes = nstems.div_ceil(8);
+        cs.push(19); // a second hintmask mid-path
+        cs.extend(std::iter::repeat(0x55).take(nbytes));
+        for v in [10, 10] {
+            cs_num(&mut cs, v);
+        }
+        cs.push(5);
+    }
+    cs.push(14); // endchar
+    cs
+}
+fn cff_table_with(glyph1: &[u8]) -> Vec<u8> {
+    let notdef: &[u8] = &[14];
+    let mut cff = vec![1u8, 0, 4, 1];
+    cff.extend_from_slice(&[0, 1, 1, 1, 2, b'A']); // Name INDEX
+    const TOP: usize = 17;
+    cff.extend_from_slice(&[0, 1, 1, 1, 1 + TOP as u8]);
+    let top_pos = cff.len();
+    cff.extend_from_slice(&[0; TOP]);
+    cff.extend_from_slice(&[0, 0]); // String INDEX
+    cff.extend_from_slice(&[0, 0]); // Global Subr INDEX
+    let cs_off = cff.len();
+    cff.extend_from_slice(&[0, 2, 2]);
+    let off1 = 1 + notdef.len() as u16;
+    let off2 = off1 + glyph1.len() as u16;
+    for off in [1u16, off1, off2] {
+        cff.extend_from_slice(&off.to_be_bytes());
+    }
+    cff.extend_from_slice(notdef);
+    cff.extend_from_slice(glyph1);
+    let priv_off = cff.len();
+    let private_dict = [50u8 + 139, 10]; // StdHW 50
+    cff.extend_from_slice(&private_dict);
+    let mut top = vec![];
+    let dict_int = |out: &mut Vec<u8>, v: i32| {
+        out.push(29);
+        out.extend_from_slice(&v.to_be_bytes());
+    };
+    dict_int(&mut top, cs_off as i32);
+    top.push(17);
+    dict_int(&mut top, private_dict.len() as i32);
+    dict_int(&mut top, priv_off as i32);
+    top.push(18);
+    cff[top_pos..top_pos + TOP].copy_from_slice(&top);
+    cff
+}
+fn cff_font(charstring: &[u8]) -> Vec<u8> {
+    let mut hmtx = vec![];
+    for _ in 0..2 {
+        hmtx.extend_from_slice(&be16(500));
+        hmtx.extend_from_slice(&be16(10));
+    }
+    let mut f = build_sfnt(&[
+        (b"head", head_table()),
+        (b"hhea", hhea_table(2)),
+        (b"maxp", vec![0, 0, 0x50, 0, 0, 2]),
+        (b"hmtx", hmtx),
+        (b"CFF ", cff_table_with(charstring)),
+    ]);
+    f[0..4].copy_from_slice(b"OTTO");
+    f
+}
+fn cff_cases() -> Vec<(String, Vec<u8>)> {
+    let mut v = vec![];
+    for variant in 0..7u8 {
+        for pairs in 44..=52i32 {
+            for ghost in [0i32, -20, -21] {
+                let mut stems: Vec<(i32, i32)> = vec![];
+                if ghost != 0 {
+                    stems.push((0, ghost));
+                }
+                for k in 1..=pairs {
+                    stems.push((10 * k, 10 * k + 4));
+                }
+                // a trailing ghost stem as well for the odd fill from the other side
+                if ghost == -21 && pairs % 2 == 0 {
+                    stems.push((10 * pairs + 30, 10 * pairs + 30 - 20));
+                }
+                v.push((format!("synthetic-cff-stems-v{}-p{}-g{}", variant, pairs, -ghost), cff_font(&cff_charstring(&stems, variant))));
+            }
+        }
+    }
+    v
+}
+fn exercise_cff(cx: &mut Ctx, data: &[u8]) {
+    use skrifa::instance::{LocationRef, Size};
+    use skrifa::outline::{DrawSettings, Engine, HintingInstance, HintingOptions, SmoothMode, Target};
+    use skrifa::MetadataProvider;
+    let Ok(font) = skrifa::FontRef::new(data) else {
+        cx.count("cff.font_rejected");
+        return;
+    };
+    let og = font.outline_glyphs();
+    for gid in [1u32, 0] {
+        let Some(glyph) = og.get(skrifa::GlyphId::new(gid)) else {
+            cx.count("cff.no_glyph");
+            continue;
+        };
+        cx.group("draw.unhinted");
+        for ppem in [0.0f32, 8.0, 16.0, 137.0, 1000.0] {
+            let r = cx.api("draw.unhinted", || glyph.draw(DrawSettings::unhinted(Size::new(ppem), LocationRef::default()), &mut NullPen).is_ok());
+            cx.count(if r == Some(true) { "cff.draw_ok" } else { "cff.draw_err" });
+        }
+        for (ei, engine) in [Engine::Interpreter, Engine::AutoFallback, Engine::Auto(None)].into_iter().enumerate() {
+            for target in [Target::Mono, Target::Smooth { mode: SmoothMode::Normal, symmetric_rendering: true, preserve_linear_metrics: false }, Target::Smooth { mode: SmoothMode::Lcd, symmetric_rendering: false, preserve_linear_metrics: true }] {
+                for ppem in [8.0f32, 16.0, 137.0, 1000.0] {
+                    cx.group(&format!("draw.hinted.engine{}", ei));
+                    let Some(Ok(inst)) = cx.api("HintingInstance::new", || HintingInstance::new(&og, Size::new(ppem), LocationRef::default(), HintingOptions { engine: engine.clone(), target })) else {
+                        continue;
+                    };
+                    for ped in [false, true] {
+                        let r = cx.api("draw.hinted", || glyph.draw(DrawSettings::hinted(&inst, ped), &mut NullPen).is_ok());
+                        cx.count(if r == Some(true) { "cff.hinted_ok" } else { "cff.hinted_err" });
+                    }
+                }
+            }
+        }
+    }
+}
+
+// ---- the REAL brotli decoder on hand-built valid streams of uncompressed meta-blocks (RFC 7932) ----
+struct BitW {
+    out: Vec<u8>,
+    nbits: usize,
+}
+impl BitW {
+    fn put(&mut self, v: u32, n: usize) {
+        for i in 0..n {
+            if self.nbits % 8 == 0 {
+                self.out.push(0);
+            }
+            if (v >> i) & 1 != 0 {
+                *self.out.last_mut().unwrap() |= 1 << (self.nbits % 8);
+            }
+            self.nbits += 1;
+        }
+    }
+    fn align(&mut self) {
+        self.nbits = self.out.len() * 8;
+    }
+}
+/// valid brotli stream: window header + one uncompressed meta-block per chunk (<= 2^20 bytes each) + empty last block
+fn stored_brotli(wbits: u32, payload: &[u8], chunk: usize) -> Vec<u8> {
+    let mut w = BitW { out: vec![], nbits: 0 };
+    match wbits {
+        16 => w.put(0, 1),
+        17 => {
+            w.put(1, 1);
+            w.put(0, 3);
+            w.put(0, 3);
+        }
+        18..=24 => {
+            w.put(1, 1);
+            w.put(wbits - 17, 3);
+        }
+        _ => {
+            // 10..=15
+            w.put(1, 1);
+            w.put(0, 3);
+            w.put(wbits - 8, 3);
+        }
+    }
+    for c in payload.chunks(chunk.clamp(1, 1 << 20)) {
+        w.put(0, 1); // ISLAST
+        let (mn, nib) = if c.len() <= 1 << 16 { (0, 4) } else { (1, 5) };
+        w.put(mn, 2);
+        w.put((c.len() - 1) as u32, nib * 4);
+        w.put(1, 1); // ISUNCOMPRESSED
+        w.align();
+        w.out.extend_from_slice(c);
+        w.nbits = w.out.len() * 8;
+    }
+    w.put(1, 1); // ISLAST
+    w.put(1, 1); // ISLASTEMPTY
+    w.out
+}
+struct BrCase {
+    wbits: u32,
+    len: usize,
+    chunk: usize,
+}
+fn brotli_cases(thorough: bool) -> Vec<BrCase> {
+    let mut v = vec![];
+    for wbits in 10..=16u32 {
+        let win = (1usize << wbits) - 16;
+        let mut lens = vec![1usize, 10, 1000, win - 1, win, win + 1, 1 << wbits, (1 << wbits) + 1, 8192, 3 * (1 << wbits) + 5];
+        if thorough {
+            lens.extend([win / 2, 2 * win, 65536, 200_000]);
+        }
+        lens.sort();
+        lens.dedup();
+        for len in lens {
+            v.push(BrCase { wbits, len, chunk: 1 << 16 });
+            if len > 3000 {
+                v.push(BrCase { wbits, len, chunk: 1000 });
+            }
+        }
+    }
+    v
+}
+fn tk_patch(stream: &[u8], max_len: u32, tag: &[u8; 4]) -> Vec<u8> {
+    let mut p = vec![];
+    p.extend_from_slice(b"iftk");
+    p.extend_from_slice(&0u32.to_be_bytes());
+    for v in [1u32, 2, 3, 4] {
+        p.extend_from_slice(&v.to_be_bytes());
+    }
+    p.extend_from_slice(&1u16.to_be_bytes());
+    let first = (p.len() + 8) as u32;
+    let end = first + 9 + stream.len() as u32;
+    p.extend_from_slice(&first.to_be_bytes());
+    p.extend_from_slice(&end.to_be_bytes());
+    p.extend_from_slice(tag);
+    p.push(1); // REPLACE_TABLE
+    p.extend_from_slice(&max_len.to_be_bytes());
+    p.extend_from_slice(stream);
+    p
+}
+fn exercise_brotli(cx: &mut Ctx, c: &BrCase) {
+    use font_test_data::ift as t;
+    let payload: Vec<u8> = (0..c.len as u32).map(|i| (i % 251) as u8).collect();
+    let stream = stored_brotli(c.wbits, &payload, c.chunk);
+    let maxes: Vec<usize> = {
+        let mut m = vec![0usize, 1, 10, c.len.saturating_sub(1), c.len, c.len + 1, 1 << 20];
+        m.sort();
+        m.dedup();
+        m
+    };
+    // (1) the decoder itself, with and without a dictionary
+    for &max in &maxes {
+        cx.group(&format!("BuiltInBrotliDecoder::decode(max{}len)", if max < c.len { "<" } else if max == c.len { "=" } else { ">" }));
+        let r = cx.api("BuiltInBrotliDecoder::decode", || BuiltInBrotliDecoder.decode(&stream, None, max));
+        match &r {
+            Some(Ok(out)) => {
+                cx.count("brotli.decode_ok");
+                if out.len() > max {
+                    cx.fail("BuiltInBrotliDecoder::decode", "brotli:output-exceeds-max".into(), &format!("decoded {} bytes with max {}", out.len(), max));
+                }
+                if *out != payload {
+                    cx.fail("BuiltInBrotliDecoder::decode", "brotli:stored-stream-roundtrip".into(), "decoded bytes differ from the stored payload");
+                }
+            }
+            Some(Err(_)) => {
+                cx.count("brotli.decode_err");
+                if max >= c.len {
+                    cx.fail("BuiltInBrotliDecoder::decode", "brotli:valid-stream-rejected".into(), &format!("wbits {} len {} max {}", c.wbits, c.len, max));
+                }
+            }
+            None => {}
+        }
+        let dict = vec![7u8; 100];
+        cx.api("BuiltInBrotliDecoder::decode(dict)", || BuiltInBrotliDecoder.decode(&stream, Some(&dict), max).map(|v| v.len()));
+    }
+    // truncated / trailing input
+    cx.group("BuiltInBrotliDecoder::decode(truncated)");
+    for cut in [1usize, 2, stream.len() / 2, stream.len() - 1] {
+        let cut = cut.min(stream.len());
+        cx.api("BuiltInBrotliDecoder::decode", || BuiltInBrotliDecoder.decode(&stream[..cut], None, c.len).map(|v| v.len()));
+    }
+    let mut extra = stream.clone();
+    extra.extend_from_slice(&[1, 2, 3]);
+    cx.api("BuiltInBrotliDecoder::decode", || BuiltInBrotliDecoder.decode(&extra, None, c.len).map(|v| v.len()));
+    // (2) table keyed patch through the default apply path
+    let tk_font = ift_base_font(&t::table_keyed_format2(), None, 0);
+    if let Ok(fr) = skrifa::FontRef::new(&tk_font) {
+        let subset = SubsetDefinition::codepoints([5u32].into_iter().collect());
+        for &max in &maxes {
+            cx.group("PatchGroup::apply_next_patches(table-keyed)");
+            let Some(Ok(g)) = cx.api("PatchGroup::select_next_patches", || PatchGroup::select_next_patches(fr.clone(), &subset)) else { continue };
+            let uris: Vec<String> = g.uris().map(|u| u.to_string()).collect();
+            let mut data: HashMap<String, UriStatus> = uris.iter().map(|u| (u.clone(), UriStatus::Pending(tk_patch(&stream, max as u32, b"tab1")))).collect();
+            let r = cx.api("PatchGroup::apply_next_patches", || g.apply_next_patches(&mut data).map(|v| v.len()));
+            match r {
+                Some(Ok(_)) => cx.count("brotli.tk_apply_ok"),
+                Some(Err(_)) => cx.count("brotli.tk_apply_err"),
+                None => {}
+            }
+            if let (Some(Ok(_)), true) = (&r, max < c.len) {
+                cx.fail("PatchGroup::apply_next_patches", "brotli:table-keyed-exceeds-max".into(), "patch larger than maxUncompressedLength was applied");
+            }
+        }
+    }
+    // (3) glyph keyed patch through the default apply path: payload = a real glyph patches block padded to len
+    let mut ift = t::table_keyed_format2();
+    ift.write_at("encoding", 3u8);
+    ift.write_at("compat_id[0]", 6u32);
+    ift.write_at("compat_id[1]", 7u32);
+    ift.write_at("compat_id[2]", 8u32);
+    ift.write_at("compat_id[3]", 9u32);
+    let gk_font = ift_base_font(&ift, None, 0);
+    if let Ok(fr) = skrifa::FontRef::new(&gk_font) {
+        let subset = SubsetDefinition::codepoints([5u32].into_iter().collect());
+        let mut gp = t::glyf_u16_glyph_patches().to_vec();
+        if gp.len() < c.len {
+            gp.resize(c.len, 0);
+        }
+        let gstream = stored_brotli(c.wbits, &gp, c.chunk);
+        for &max in &[0usize, 10, gp.len().saturating_sub(1), gp.len(), gp.len() + 1] {
+            cx.group("PatchGroup::apply_next_patches(glyph-keyed)");
+            let Some(Ok(g)) = cx.api("PatchGroup::select_next_patches", || PatchGroup::select_next_patches(fr.clone(), &subset)) else { continue };
+            let uris: Vec<String> = g.uris().map(|u| u.to_string()).collect();
+            let mut h = t::glyph_keyed_patch_header();
+            h.write_at("max_uncompressed_length", max as u32);
+            let mut patch = h.to_vec();
+            patch.extend_from_slice(&gstream);
+            let mut data: HashMap<String, UriStatus> = uris.iter().map(|u| (u.clone(), UriStatus::Pending(patch.clone()))).collect();
+            let r = cx.api("PatchGroup::apply_next_patches", || g.apply_next_patches(&mut data).map(|v| v.len()));
+            match r {
+                Some(Ok(_)) => cx.count("brotli.gk_apply_ok"),
+                Some(Err(_)) => cx.count("brotli.gk_apply_err"),
+                None => {}
+            }
+        }
+    }
+}
+
 // ---- task list (identical in every process) ----
 #[derive(Clone)]
 enum Task {
@@ -2321,6 +2704,8 @@ enum Task {
     Mem { font: usize, gid: u32 },
     Ift1(usize),
     Ift2(usize),
+    Cff(usize),
+    Brotli(usize),
 }
 
 struct World {
@@ -2332,6 +2717,8 @@ struct World {
     ift: Vec<(&'static str, Vec<u8>)>,
     f1: Vec<F1>,
     f2: Vec<F2>,
+    cffs: Vec<(String, Vec<u8>)>,
+    brs: Vec<BrCase>,
     tasks: Vec<Task>,
 }
 
@@ -2385,13 +2772,21 @@ fn build_world(seed: u64, thorough: bool) -> World {
     for i in 0..f2.len() {
         tasks.push(Task::Ift2(i));
     }
+    let cffs = cff_cases();
+    for i in 0..cffs.len() {
+        tasks.push(Task::Cff(i));
+    }
+    let brs = brotli_cases(thorough);
+    for i in 0..brs.len() {
+        tasks.push(Task::Brotli(i));
+    }
     let nim = if thorough { 60000 } else { 8000 };
     for m in 0..nim {
         for fix in 0..ift.len() {
             tasks.push(Task::Ift { fix, m });
         }
     }
-    World { seed, thorough, runs, comps, fonts, ift, f1, f2, tasks }
+    World { seed, thorough, runs, comps, fonts, ift, f1, f2, cffs, brs, tasks }
 }
 
 fn run_task(w: &World, idx: usize, totals: &mut std::collections::BTreeMap<String, u64>, evals: &mut u64) {
@@ -2495,6 +2890,28 @@ fn run_task(w: &World, idx: usize, totals: &mut std::collections::BTreeMap<Strin
                     czlist(obs.1.iter().map(|v| *v as i128))
                 ));
             }
+            *evals += cx.evals;
+            for (k, v) in cx.counters {
+                *totals.entry(k).or_insert(0) += v;
+            }
+        }
+        Task::Cff(i) => {
+            let (name, bytes) = &w.cffs[*i];
+            let key = format!("{}:id", name);
+            wline(&format!("B {} {}", idx, key));
+            let mut cx = Ctx { task: idx, key, counters: Default::default(), evals: 0, failures: 0, sites: vec![] };
+            exercise_cff(&mut cx, bytes);
+            *evals += cx.evals;
+            for (k, v) in cx.counters {
+                *totals.entry(k).or_insert(0) += v;
+            }
+        }
+        Task::Brotli(i) => {
+            let c = &w.brs[*i];
+            let key = format!("brotli-stored-w{}-len{}-chunk{}:#{}", c.wbits, c.len, c.chunk, i);
+            wline(&format!("B {} {}", idx, key));
+            let mut cx = Ctx { task: idx, key, counters: Default::default(), evals: 0, failures: 0, sites: vec![] };
+            exercise_brotli(&mut cx, c);
             *evals += cx.evals;
             for (k, v) in cx.counters {
                 *totals.entry(k).or_insert(0) += v;
